@@ -95,7 +95,8 @@ theorem step_ineq (x : Nat) (hx : x < 100) (st : St) (ins : Instr) (hf : ∀ v, 
       all_goals
         simp only [St.phi, St.live, St.liveOrig, noteRam_args', noteRam_res, noteRam_cp', noteRam_mv, noteRam_lost, noteRam_ram]
         rcases slot_cases s hne with hl | hl <;> rcases beq_cases s.id x with ⟨hid, hb⟩ | ⟨hid, hb⟩ <;> cases ho : s.orig <;>
-          simp [isLiveId, isOrigId, Slot.isLive, hl, hid, hb, ho, List.count_append, List.count_singleton] at h1 h2 ⊢ <;> omega
+          by_cases hd : d = Dest.drop <;>
+          simp [isLiveId, isOrigId, Slot.isLive, hl, hid, hb, ho, hd, List.count_append, List.count_singleton] at h1 h2 ⊢ <;> omega
   | swap a i j =>
     simp only [step]
     split
@@ -123,6 +124,15 @@ theorem step_ineq (x : Nat) (hx : x < 100) (st : St) (ins : Instr) (hf : ∀ v, 
     refine Ineq.put d _ 0 ?_ (by simp) (by simp) (by simp)
     simp [List.countP_cons, isLiveId]
     omega
+  | shift a i =>
+    simp only [step]
+    split
+    · exact ineq_noteOob x st a i
+    · rename_i s hs
+      obtain ⟨r1, r2, r3⟩ := ineq_noteRam x st s
+      refine ⟨?_, ?_, ?_⟩ <;>
+        simp only [St.phi, St.live, St.liveOrig, noteRam_args', noteRam_res, noteRam_cp', noteRam_mv, noteRam_lost] at r1 r2 r3 ⊢ <;>
+        omega
 
 /-- the counters along a whole program -/
 theorem run_ineq (x : Nat) (hx : x < 100) (p : List Instr) (hf : ∀ ins ∈ p, ∀ v, ins.freshId = some v → 100 ≤ v) (st : St) :
